@@ -15,10 +15,12 @@ import (
 
 	"github.com/codelaboratoryltd/bng/pkg/dhcp"
 	"github.com/codelaboratoryltd/bng/pkg/dhcpv6"
+	"github.com/codelaboratoryltd/bng/pkg/ebpf"
 	"github.com/codelaboratoryltd/bng/pkg/ha"
 	"github.com/codelaboratoryltd/bng/pkg/nat"
 	"github.com/codelaboratoryltd/bng/pkg/pppoe"
 	"github.com/codelaboratoryltd/bng/pkg/ztp"
+	"github.com/insomniacslk/dhcp/dhcpv4"
 	"go.uber.org/zap"
 	"go.uber.org/zap/zapcore"
 	"go.uber.org/zap/zaptest/observer"
@@ -40,6 +42,7 @@ const (
 	EIp6cpRecv  = 12 // params [state; last_id]
 	EAuthRecv   = 13 // params [proto; chap_id]
 	ECreateSeq  = 14 // params [mode (0 CreateSession, 1 PADR through handleDiscovery); n; zero_used; next; free ids...]
+	ERecvFrame  = 15 // params [sid_live; authenticated]; d = Ethernet frame through the real receiveLoop, t = stale bytes behind it in the receive buffer
 	ED6Message  = 20
 	ED6Options  = 21
 	ED6IANA     = 22
@@ -48,6 +51,9 @@ const (
 	ED6IAPrefix = 25
 	ED6DUID     = 26
 	ED6Handle   = 27 // params = serialized server DUID
+	ED6HandleSt = 28 // case params = setup [hit; IA_NA in the setup; IA_PD in the setup; pools exhausted]; Model params are derived at run time (effP)
+	EDhcp4      = 40 // implementation only: raw DHCPv4 datagram -> dhcpv4.FromBytes (third-party oracle) -> dhcp.Server.handleDHCP
+	ESseData    = 41 // implementation only: ha.HASyncer.handleSSEData on one payload (encoding/json is an oracle)
 	EOpt82      = 30
 	EVendor     = 31
 	ESse        = 32
@@ -62,7 +68,9 @@ var entryNames = map[int]string{
 	EDiscovery: "pppoe.Server.handleDiscovery", ESession: "pppoe.Server.handleSession",
 	ECreate: "pppoe.SessionManager.CreateSession", ELcpRecv: "pppoe.LCPStateMachine.ReceivePacket",
 	EIpcpRecv: "pppoe.IPCPStateMachine.ReceivePacket", EIp6cpRecv: "pppoe.IPV6CPStateMachine.ReceivePacket",
-	EAuthRecv: "pppoe.Authenticator.ReceivePacket", ECreateSeq: "pppoe.SessionManager.CreateSession(sequence)", ED6Message: "dhcpv6.ParseMessage", ED6Options: "dhcpv6.ParseOptions",
+	EAuthRecv: "pppoe.Authenticator.ReceivePacket", ECreateSeq: "pppoe.SessionManager.CreateSession(sequence)",
+	ERecvFrame: "pppoe.Server.receiveLoop", ED6HandleSt: "dhcpv6.Server.handleMessage(lease state)",
+	EDhcp4: "dhcp.Server.handleDHCP", ESseData: "ha.HASyncer.handleSSEData", ED6Message: "dhcpv6.ParseMessage", ED6Options: "dhcpv6.ParseOptions",
 	ED6IANA: "dhcpv6.ParseIANA", ED6IAPD: "dhcpv6.ParseIAPD", ED6IAAddr: "dhcpv6.ParseIAAddress",
 	ED6IAPrefix: "dhcpv6.ParseIAPrefix", ED6DUID: "dhcpv6.ParseDUID", ED6Handle: "dhcpv6.Server.handleMessage",
 	EOpt82: "dhcp.parseOption82", EVendor: "ztp.parseVendorOptions", ESse: "ha.HASyncer.connectToStream",
@@ -250,15 +258,30 @@ func (e *srvEnv) frameRows() [][]uint64 {
 }
 
 func runDiscovery(p []uint64, d, tail []byte, session bool) Out {
+	return runFrame(p, d, tail, session, false)
+}
+
+// runFrame delivers d to handleDiscovery / handleSession directly, or (loop) as a whole Ethernet
+// frame through the real receiveLoop (hook VerifC09ReceiveFrames).
+func runFrame(p []uint64, d, tail []byte, session, loop bool) Out {
 	sid := uint64(0)
 	if len(p) > 0 {
 		sid = p[0]
 	}
 	e := newSrv(sid, len(p) > 1 && p[1] != 0)
 	in := withTail(d, tail)
+	if loop {
+		session = !(len(d) >= 14 && d[12] == 0x88 && d[13] == 0x63)
+	}
 	return guarded(5*time.Second, func() Out {
 		before := e.sock.Count()
-		if session {
+		if loop {
+			e.srv.VerifC09ReceiveFrames([][]byte{append([]byte(nil), d...)}, [][]byte{append([]byte(nil), tail...)})
+			fr := e.sock.Frames()
+			if !session && len(fr) > before && len(fr[before]) > 15 && fr[before][15] == pppoe.CodePADS {
+				waitFrames(e.sock, before+2)
+			}
+		} else if session {
 			e.srv.VerifC09HandleSession(clientMAC, in)
 		} else {
 			e.srv.VerifC09HandleDiscovery(clientMAC, in)
@@ -650,6 +673,154 @@ func runD6Handle(d []byte, fresh bool) Out {
 	})
 }
 
+// effP holds the Model parameters of the last ED6HandleSt call (derived from the real server).
+var effP []uint64
+
+var d6Prepared = []byte{0, 1, 0xaa, 0xbb}
+var d6StServers = map[string]*dhcpv6.Server{}
+
+func d6msg(ty byte, parts ...[]byte) []byte {
+	o := []byte{ty, 9, 9, 9}
+	for _, p := range parts {
+		o = append(o, p...)
+	}
+	return o
+}
+
+func d6o(code int, data []byte) []byte {
+	return append([]byte{byte(code >> 8), byte(code), byte(len(data) >> 8), byte(len(data))}, data...)
+}
+
+// runD6HandleSt puts a real server into the lease state described by setup
+// [hit; IA_NA; IA_PD; exhausted] using real datagrams only, then delivers d.
+func runD6HandleSt(setup []uint64, d []byte) Out {
+	g := func(i int) bool { return len(setup) > i && setup[i] != 0 }
+	hit, wantA, wantP, exh := g(0), g(1), g(2), g(3)
+	cfg := dhcpv6.ServerConfig{Interface: "lo", AddressPool: "2001:db8:1::/64", PrefixPool: "2001:db8:100::/40",
+		DelegationLength: 56, DNSServers: []string{"2001:4860:4860::8888"}}
+	if exh {
+		cfg.AddressPool, cfg.PrefixPool = "2001:db8:1::/126", "2001:db8:100::/54" // 3 addresses, 4 prefixes
+	}
+	// implementation-only sweeps (only PANIC / HANG is looked at) reuse one server per setup and
+	// replay the setup datagrams before each input; every compared case gets a fresh server
+	key := fmt.Sprint(hit, wantA, wantP, exh)
+	s := d6StServers[key]
+	if s == nil || !implOnlyMode {
+		var err error
+		s, err = dhcpv6.NewServer(cfg, nop)
+		if err != nil {
+			panic(err)
+		}
+		if d6ClosedConn == nil {
+			d6Server()
+		}
+		s.VerifC09SetConn(d6ClosedConn)
+		if implOnlyMode {
+			d6StServers[key] = s
+		}
+	}
+	peer := &net.UDPAddr{IP: net.IPv4(127, 0, 0, 9), Port: 546}
+	sd := s.VerifC09ServerDUID()
+	iana := d6o(3, make([]byte, 12))
+	iapd := d6o(25, make([]byte, 12))
+	if exh { // four other clients take every address and prefix
+		for k := 0; k < 4; k++ {
+			s.VerifC09HandleDatagram(d6msg(3, d6o(1, []byte{0xee, 0xee, byte(k)}), d6o(2, sd), iana, iapd), peer)
+		}
+	}
+	if hit {
+		parts := [][]byte{d6o(1, d6Prepared), d6o(2, sd)}
+		if wantA {
+			parts = append(parts, iana)
+		}
+		if wantP {
+			parts = append(parts, iapd)
+		}
+		s.VerifC09HandleDatagram(d6msg(3, parts...), peer)
+	}
+	b2u := func(b bool) uint64 {
+		if b {
+			return 1
+		}
+		return 0
+	}
+	nl := s.GetStats()["active_leases"]
+	effP = append([]uint64{b2u(hit), b2u(hit && wantA && !exh), b2u(hit && wantP && !exh), nl, b2u(exh), uint64(len(sd))}, append(b2r(sd), b2r(d6Prepared)...)...)
+	in := append([]byte(nil), d...)
+	return guarded(5*time.Second, func() Out {
+		b := s.GetStats()
+		if !s.VerifC09HandleDatagram(in, peer) {
+			return errOut()
+		}
+		a := s.GetStats()
+		return ok([]uint64{a["advertises_sent"] - b["advertises_sent"], a["replies_sent"] - b["replies_sent"], a["active_leases"]})
+	})
+}
+
+// ---- DHCPv4 handler glue behind the third-party parser (implementation only)
+
+var dhcp4Srv *dhcp.Server
+
+func dhcp4Server() *dhcp.Server {
+	if dhcp4Srv != nil {
+		return dhcp4Srv
+	}
+	loader, err := ebpf.NewLoader("lo", nop) // never Load()ed: its map calls fail and are logged
+	if err != nil {
+		panic(err)
+	}
+	pm := dhcp.NewPoolManager(nil, nop)
+	p, err := dhcp.NewPool(dhcp.PoolConfig{ID: 1, Name: "p", Network: "192.0.2.0/28", Gateway: "192.0.2.1",
+		DNSServers: []string{"192.0.2.53"}, LeaseTime: time.Hour})
+	if err != nil {
+		panic(err)
+	}
+	if err := pm.AddPool(p); err != nil {
+		panic(err)
+	}
+	s, err := dhcp.NewServer(dhcp.ServerConfig{Interface: "lo", ServerIP: net.IPv4(192, 0, 2, 1)}, loader, pm, nop)
+	if err != nil {
+		panic(err)
+	}
+	dhcp4Srv = s
+	return s
+}
+
+// runDhcp4: the datagram goes through insomniacslk's parser (oracle); what parses is handed to the
+// real handleDHCP (one shared server: the lease table fills up and empties as the stream goes on,
+// the /28 pool is exhausted most of the time).
+func runDhcp4(d []byte) Out {
+	s := dhcp4Server()
+	in := append([]byte(nil), d...)
+	return guarded(5*time.Second, func() Out {
+		req, err := dhcpv4.FromBytes(in)
+		if err != nil {
+			return errOut()
+		}
+		replies, _, _ := s.VerifC02Handle(req, &net.UDPAddr{IP: net.IPv4(192, 0, 2, 200), Port: 68})
+		return ok([]uint64{uint64(len(replies))})
+	})
+}
+
+var sseDataSyncer *ha.HASyncer
+
+func runSseData(d []byte) Out {
+	if sseDataSyncer == nil {
+		cfg := ha.DefaultSyncConfig()
+		cfg.NodeID = "standby"
+		cfg.Role = ha.RoleStandby
+		sseDataSyncer = ha.NewHASyncer(cfg, &memStore{m: map[string]ha.SessionState{}}, nop)
+	}
+	in := append([]byte(nil), d...)
+	return guarded(5*time.Second, func() Out {
+		if err := sseDataSyncer.VerifC09HandleSSEData(in); err != nil {
+			return errOut()
+		}
+		_ = sseDataSyncer.VerifC09MessagesReceived() // follow-up call: the syncer's lock must be free
+		return ok()
+	})
+}
+
 // ---- HA SSE reader
 
 type memStore struct {
@@ -770,6 +941,14 @@ func call1(e int, p []uint64, d, tail []byte) Out {
 		return runCreate(p)
 	case ECreateSeq:
 		return runCreateSeq(p)
+	case ERecvFrame:
+		return runFrame(p, d, tail, false, true)
+	case ED6HandleSt:
+		return runD6HandleSt(p, d)
+	case EDhcp4:
+		return runDhcp4(d)
+	case ESseData:
+		return runSseData(d)
 	case ELcpRecv, EIpcpRecv, EIp6cpRecv:
 		return runAutomaton(e, p, d)
 	case EAuthRecv:
